@@ -99,7 +99,7 @@ func main() {
 		// same Go type
 		if gt != nil && !unmodelled(t, gt) {
 			emit("rt "+tv+" "+gt.String(), "rt-same/"+sizeClass(t))
-			if valgen.RTClean(p, t, gt, v) {
+			if valgen.RTCleanAny(p, t, gt, v) {
 				emit("rtsame "+tv+" "+gt.String(), "rtsame/"+sizeClass(t))
 			}
 		}
